@@ -6,14 +6,16 @@ Import ListNotations.
 Lemma C06_closed : closed_C06 syn_ps2 = true.
 Proof. vm_compute. reflexivity. Qed.
 
-Theorem C06 : forall ops : list bit_op,
-  outs (ps2_machine syn_ps2) (Ps2Decoder_mk 0 0) ops = outs frame_machine [] ops
-  /\ outs (ps2_machine syn_ps2) (Ps2Decoder_mk 0 0) ops <> Panic.
-Proof. exact (C06_sound syn_ps2 (Ps2Decoder_mk 0 0) eq_refl C06_closed). Qed.
+(* stated for the decoder's own initial state, whatever fields it has *)
+Theorem C06 : forall s0, ps_init syn_ps2 = Ret s0 -> forall ops : list bit_op,
+  outs (ps2_machine syn_ps2) s0 ops = outs frame_machine [] ops
+  /\ outs (ps2_machine syn_ps2) s0 ops <> Panic.
+Proof. intros s0 Hi. exact (C06_sound syn_ps2 s0 Hi C06_closed). Qed.
+Example C06_init_exists : exists s0, ps_init syn_ps2 = Ret s0. Proof. eexists; reflexivity. Qed.
 
-Check C06 : forall ops : list bit_op,
-  outs (ps2_machine syn_ps2) (Ps2Decoder_mk 0 0) ops = outs frame_machine [] ops
-  /\ outs (ps2_machine syn_ps2) (Ps2Decoder_mk 0 0) ops <> Panic.
+Check C06 : forall s0, ps_init syn_ps2 = Ret s0 -> forall ops : list bit_op,
+  outs (ps2_machine syn_ps2) s0 ops = outs frame_machine [] ops
+  /\ outs (ps2_machine syn_ps2) s0 ops <> Panic.
 Check frame_whole : forall bits, List.length bits = 11%nat ->
   run frame_machine [] (map Bit bits) = Ret ([], repeat (Ok None) 10 ++ [lift_check (word_of_bits bits)]).
 Check frame_independent.
